@@ -28,7 +28,7 @@ type mworld struct {
 	curCls  string
 	curLive string
 	snap    *msnap
-	values2 bool // matrix values restricted to {0,1} (large shapes in the quick tier)
+	values2 bool    // matrix values restricted to {0,1} (large shapes in the quick tier)
 	views   []mview // slice + sibling views left by the last slice-writer operation (views.go)
 	joint   bool    // reduced alphabet with one live joint iterator (joint.go)
 	jforms  []int
